@@ -1063,7 +1063,7 @@ func (e *Env) callExpr(n *ast.CallExpr) Val {
 		// identity of a 16-byte checksum held in a byte slice: the 128-bit number its bytes spell (injective, no axioms needed)
 		v := arg(0)
 		if v.K == KInt && v.T != nil {
-			if arr, ok := isArrayT(v.T); ok {
+			if arr, ok := isArrayT(derefType(v.T)); ok {
 				v = SliceV(v.S, "0", numI(arr.Len()), numI(arr.Len()), types.NewSlice(arr.Elem()))
 			}
 		}
@@ -1085,6 +1085,16 @@ func (e *Env) callExpr(n *ast.CallExpr) Val {
 		vc.declareFun("hashid", []string{"(Array Int Int)", "Int", "Int"}, "Int")
 		vc.axiom("hashid_pos", "(forall ((a (Array Int Int)) (o Int) (n Int)) (! (> (hashid a o n) 0) :pattern ((hashid a o n))))")
 		return IntV(app("hashid", Sel(vc.heapGet(e.st, byteHeap, arr2Sort("Int")), v.Reg), v.Off, v.Len), nil)
+	case "hasPrefix":
+		return BoolV(vc.hasPrefix(arg(0).S, arg(1).S))
+	case "domain":
+		m := arg(0)
+		mt, ok := m.T.Underlying().(*types.Map)
+		if !ok {
+			panic(specErr("%s: domain() of a non-map", e.what))
+		}
+		dom, _, _ := vc.mapHeap(mt)
+		return Val{K: KInt, S: Sel(vc.heapGet(e.st, dom, "(Array Int (Array Int Bool))"), m.S)}
 	case "member2":
 		return BoolV(Sel(Sel(arg(0).S, arg(1).S), arg(2).S))
 	case "add2":
